@@ -105,15 +105,238 @@ def used_by_repo(model, c):
     return False
 
 
-def decoders(ctx, report):
-    """R2: structural facts about the four generic decoders, read from their ASTs."""
+def decoders_by_evaluation(ctx, report):
+    """the generic decoders evaluated (sa.miniexec, helper methods included) on model enumerations:
+
+    * NByteEnumParsable._parse for widths 1, 2, 3: the member whose code equals the big-endian number read, InvalidValue
+      for a number no member has, the reported length is the width;
+    * StringEnumParsableBase._parse through StringEnumParsable and StringEnumCaseInsensitiveParsable: the member with the
+      *longest* code that the input starts with (exactly resp. case-insensitively; the first defined among equally long
+      ones), InvalidValue when none does or the input is not ASCII, the reported length is the length of that code;
+    * OpaqueEnumParsable._parse: the member whose code equals the decoded opaque bytes, InvalidValue otherwise (also for
+      bytes that do not decode), the reported length is the one the vector parser reported.
+
+    Returns the set of decoder names decided this way (the syntactic rule keeps the others)"""
+    from ..miniexec import Evaluator, Native, NativeError, Obj, Raised, Unsupported, class_call_hook
     model = ctx.model
+    decided = set()
+
+    class NotEnoughData(NativeError):
+        pass
+
+    def member(name, code):
+        return Obj(name=name, value=Obj(code=code))
+
+    # ---- fixed width numbers
+    c = model.try_cls('NByteEnumParsable')
+    f = c.methods.get('_parse') if c is not None else None
+    if f is not None:
+        class Parser(Native):
+            def __init__(self, data):
+                self.data, self.values, self.parsed_length = bytes(data), {}, 0
+
+            def parse_numeric(self, name, size, *a, **k):
+                if len(self.data) - self.parsed_length < size:
+                    raise NotEnoughData()
+                self.values[name] = int.from_bytes(self.data[self.parsed_length:self.parsed_length + size], 'big')
+                self.parsed_length += size
+
+            def __getitem__(self, name):
+                return self.values[name]
+
+        class Cls(Native):
+            _repo_class = c
+
+            def __init__(self, width, members):
+                self.width, self.members = width, members
+
+            def get_byte_num(self):
+                return self.width
+
+            def get_enum_class(self):
+                return list(self.members)
+
+        def extra(n, ev):
+            if ast.unparse(n.func) == 'ParserBinary':
+                return Parser(ev.ev(n.args[0]))
+            return NotImplemented
+        hook = class_call_hook(c, extra, model)
+        bad, runs = [], 0
+        try:
+            for width in (1, 2, 3):
+                top = 256 ** width - 1
+                codes = sorted({0, 1, 2, 0x7f, 0x80, 0xff & top, top, top - 1, (0x0102 if width > 1 else 0x12), 0x0100 & top, 0x010000 & top})
+                members = [member('M%x' % k, k) for k in codes]
+                me = Cls(width, members)
+                probes = set(codes) | {k + 1 for k in codes if k + 1 <= top} | {k - 1 for k in codes if k > 0} | {3, 0x55 & top}
+                for v in sorted(probes):
+                    for tail in (b'', b'\xaa\xbb'):
+                        runs += 1
+                        data = v.to_bytes(width, 'big') + tail
+                        want = next((m for m in members if m.value.code == v), None)
+                        try:
+                            got = Evaluator({'cls': me, 'parsable': data}, hook, None).function(f.node)
+                        except Raised as e:
+                            if want is not None or 'InvalidValue' not in e.what:
+                                bad.append('the %d byte code 0x%x raises %s' % (width, v, e.what.split('(')[0]))
+                            continue
+                        if want is None:
+                            bad.append('the unknown %d byte code 0x%x is decoded as %s' % (width, v, getattr(got[0], 'name', got)))
+                        elif not (isinstance(got, tuple) and got[0] is want):
+                            bad.append('the %d byte code 0x%x is decoded as %s instead of %s' % (width, v, getattr(got[0], 'name', got), want.name))
+                        elif got[1] != width:
+                            bad.append('a %d byte code is reported as %r bytes long' % (width, got[1]))
+                # a buffer shorter than the width is not decoded
+                runs += 1
+                try:
+                    Evaluator({'cls': me, 'parsable': b'\x00' * (width - 1)}, hook, None).function(f.node)
+                    bad.append('a %d byte buffer is decoded as a %d byte code' % (width - 1, width))
+                except Raised as e:
+                    if 'NotEnoughData' not in e.what:
+                        bad.append('a short buffer raises %s' % e.what.split('(')[0])
+            decided.add('NByteEnumParsable')
+            report.count('C10.R2', runs)
+            if bad:
+                report.add('C10.R2', f.construct + '@search', 'NByteEnumParsable: %d of %d evaluated inputs: %s' % (len(bad), runs, bad[0]))
+            else:
+                report.sample({'rule': 'C10.R2', 'decoder': f.construct, 'verdict': 'evaluated: the member with the equal code, InvalidValue otherwise, length = width', 'runs': runs})
+        except Unsupported as e:
+            report.undecided.append('C10.R2: NByteEnumParsable._parse left the subset the evaluation understands (%s); decided on its syntax' % e)
+
+    # ---- prefix matched strings
+    base = model.try_cls('StringEnumParsableBase')
+    f = base.methods.get('_parse') if base is not None else None
+    for sub_name, fold in (('StringEnumParsable', False), ('StringEnumCaseInsensitiveParsable', True)):
+        sub = model.try_cls(sub_name)
+        if f is None or sub is None:
+            continue
+
+        class SCls(Native):
+            _repo_class = sub
+
+            def __init__(self, members):
+                self.members = members
+
+            def __iter__(self):
+                return iter(list(self.members))
+        hook = class_call_hook(sub, None, model)
+        codes = ['ab', 'abc', 'abcd', 'x', 'Xy', 'abd', 'q-1', 'q-12']
+        members = [member('S%d' % i, k) for i, k in enumerate(codes)]
+        me = SCls(members)
+        inputs = ['ab', 'abc', 'abcd', 'abcde', 'abx', 'a', '', 'x', 'xy', 'Xy', 'XY', 'ABC', 'abD', 'abd', 'q-1', 'q-12', 'q-123', 'q-', 'zz', 'ab\xff', '\xffab']
+        bad, runs = [], 0
+        try:
+            for text in inputs:
+                runs += 1
+                data = text.encode('latin-1')
+                ascii_ok = all(b < 0x80 for b in data)
+                want = None
+                if ascii_ok:
+                    for m in members:
+                        k = m.value.code
+                        head = text[:len(k)]
+                        if len(k) <= len(text) and (head.lower() == k.lower() if fold else head == k):
+                            if want is None or len(k) > len(want.value.code):
+                                want = m
+                try:
+                    got = Evaluator({'cls': me, 'parsable': data}, hook, None).function(f.node)
+                except Raised as e:
+                    if want is not None or 'InvalidValue' not in e.what:
+                        bad.append('%r raises %s' % (text, e.what.split('(')[0]))
+                    continue
+                except UnicodeDecodeError:
+                    bad.append('%r: UnicodeDecodeError escapes' % text)
+                    continue
+                if want is None:
+                    bad.append('%r is decoded as %r although no code is a prefix of it' % (text, got[0].value.code))
+                elif not (isinstance(got, tuple) and got[0] is want):
+                    bad.append('%r is decoded as %r instead of the longest match %r' % (text, got[0].value.code, want.value.code))
+                elif got[1] != len(want.value.code):
+                    bad.append('%r: the reported length is %r, the code has %d characters' % (text, got[1], len(want.value.code)))
+            decided.add(sub_name)
+            report.count('C10.R2', runs)
+            if bad:
+                report.add('C10.R2', f.construct + '@search', '%s: %d of %d evaluated inputs: %s' % (sub_name, len(bad), runs, bad[0]))
+            else:
+                report.sample({'rule': 'C10.R2', 'decoder': '%s via %s' % (f.construct, sub_name), 'verdict': 'evaluated: longest code the input starts with', 'runs': runs})
+        except Unsupported as e:
+            report.undecided.append('C10.R2: StringEnumParsableBase._parse (%s) left the subset the evaluation understands (%s); decided on its syntax' % (sub_name, e))
+    if {'StringEnumParsable', 'StringEnumCaseInsensitiveParsable'} <= decided:
+        decided.add('StringEnumParsableBase')
+
+    # ---- opaque strings
+    c = model.try_cls('OpaqueEnumParsable')
+    f = c.methods.get('_parse') if c is not None else None
+    if f is not None:
+        state = {}
+
+        class OCls(Native):
+            _repo_class = c
+
+            def __init__(self, members):
+                self.members = members
+
+            def get_enum_class(self):
+                return list(self.members)
+
+            def get_encoding(self):
+                return 'utf-8'
+
+        def extra(n, ev):
+            d = ast.unparse(n.func)
+            if d.startswith('super(') and d.endswith('._parse'):
+                return (list(state['opaque']), state['n'])
+            return NotImplemented
+        hook = class_call_hook(c, extra, model)
+        members = [member('O%d' % i, k) for i, k in enumerate(['h2', 'http/1.1', 'h', 'h2c', '\u00e9'])]
+        me = OCls(members)
+        bad, runs = [], 0
+        try:
+            for raw in (b'h2', b'http/1.1', b'h', b'h2c', b'h3', b'', b'H2', b'h2 ', '\u00e9'.encode('utf-8'), b'\xff\xfe', b'h2\xc3'):
+                runs += 1
+                state.update(opaque=raw, n=len(raw) + 1)
+                try:
+                    text = raw.decode('utf-8')
+                except UnicodeDecodeError:
+                    text = None
+                want = next((m for m in members if text is not None and m.value.code == text), None)
+                try:
+                    got = Evaluator({'cls': me, 'parsable': bytes([len(raw)]) + raw}, hook, None).function(f.node)
+                except Raised as e:
+                    if want is not None or 'InvalidValue' not in e.what:
+                        bad.append('%r raises %s' % (raw, e.what.split('(')[0]))
+                    continue
+                except (UnicodeDecodeError, StopIteration) as e:
+                    bad.append('%r: %s escapes' % (raw, type(e).__name__))
+                    continue
+                if want is None:
+                    bad.append('%r is decoded as %r' % (raw, got[0].value.code))
+                elif not (isinstance(got, tuple) and got[0] is want and got[1] == len(raw) + 1):
+                    bad.append('%r is decoded as (%r, %r)' % (raw, getattr(got[0], 'name', got[0]), got[1]))
+            decided.add('OpaqueEnumParsable')
+            report.count('C10.R2', runs)
+            if bad:
+                report.add('C10.R2', f.construct + '@search', 'OpaqueEnumParsable: %d of %d evaluated inputs: %s' % (len(bad), runs, bad[0]))
+            else:
+                report.sample({'rule': 'C10.R2', 'decoder': f.construct, 'verdict': 'evaluated: the member with the equal code', 'runs': runs})
+        except Unsupported as e:
+            report.undecided.append('C10.R2: OpaqueEnumParsable._parse left the subset the evaluation understands (%s); decided on its syntax' % e)
+    return decided
+
+
+def decoders(ctx, report):
+    """R2: the generic decoders, by evaluation where possible (decoders_by_evaluation), else structural facts read from
+    their ASTs."""
+    model = ctx.model
+    decided = decoders_by_evaluation(ctx, report)
     specs = [
         ('NByteEnumParsable', '_parse', 'code'),
         ('OpaqueEnumParsable', '_parse', 'code'),
         ('StringEnumParsableBase', '_parse', 'code'),
     ]
     for cname, meth, attr in specs:
+        if cname in decided:
+            continue
         c = model.cls(cname)
         f = c.methods.get(meth)
         if f is None:
@@ -158,12 +381,12 @@ def decoders(ctx, report):
     report.count('C10.R2')
     read_w = None
     ret_w = None
-    for node in ast.walk(f.node):
+    for node in ast.walk(f.node) if 'NByteEnumParsable' not in decided else ():
         if isinstance(node, ast.Call) and isinstance(node.func, ast.Attribute) and node.func.attr == 'parse_numeric' and len(node.args) >= 2:
             read_w = ast.dump(node.args[1])
         if isinstance(node, ast.Return) and isinstance(node.value, ast.Tuple) and len(node.value.elts) == 2:
             ret_w = ast.dump(node.value.elts[1])
-    if read_w is None or ret_w is None or read_w != ret_w:
+    if 'NByteEnumParsable' not in decided and (read_w is None or ret_w is None or read_w != ret_w):
         report.add('C10.R2', f.construct + '@length', 'reported length is not the width that was read')
     # dependency: _from_attr is an equality search
     dep = ctx.model.try_cls('CryptoDataEnumBase')
